@@ -55,4 +55,5 @@ class TsvProjectIo(ProjectIoInterface):
             format_name="csv",
             sep="\t",
             replace_infinfinity=replace_infinfinity,
+            allow_overwrite=True,
         )
